@@ -84,6 +84,11 @@ type ty struct {
 
 	goT reflect.Type
 	mk  func() reflect.Value // fresh, decodable Go value (Result / struct containing Results); nil = zero value
+
+	// Types with a custom codec (Marshaler / Unmarshaler, universe_custom_test.go): the descriptor above states the
+	// WIRE format the custom codec defines; the Go value is bridged by these hooks instead of by kind.
+	toGoFn   func(v *val) reflect.Value
+	fromGoFn func(g reflect.Value) (*val, error)
 }
 
 // val is a value of some ty.
